@@ -880,7 +880,14 @@ class Parser:
         if self.at("while"):
             self.i += 1
             if self.at("let"):
-                self.err("`while let` is outside the subset")
+                # `while let P = E { body }` is `loop { match E { P => body, _ => break } }`
+                self.i += 1
+                pat = self.parse_pat()
+                self.eat("=")
+                scrut = self.parse_expr(no_struct=True)
+                body = self.parse_block()
+                m = N("match", t.line, scrut=scrut, arms=[(pat, None, body), (N("pwild", t.line), None, N("break", t.line))])
+                return N("while", t.line, cond=None, body=N("block", t.line, stmts=[N("exprstmt", t.line, e=m, semi=False)]))
             cond = self.parse_expr(no_struct=True)
             body = self.parse_block()
             return N("while", t.line, cond=cond, body=body)
